@@ -114,6 +114,11 @@ def baseline (top : Rat) (a : Actor) : Rat := top + a.h + a.belowLabelH
 /-- `Height/2.` on an `int` field is Go integer division -/
 def halfInt (h : Int) : Rat := ((h / 2 : Int) : Rat)
 
+/-- `noteOffset` of `routeMessages` for a message on source line `line`: every note declared on an earlier line
+    (`verticalIndices`) pushes it down by the note's height and one step; notes are (line, height) -/
+def noteOffOf (notes : List (Int × Rat)) (line : Int) : Rat :=
+  ((notes.filter fun n => n.1 < line).map fun n => n.2 + yStep).sum
+
 /-- vertical extent (first y, last y) of every message, from the running `messageOffset` -/
 def routeYs : Rat → List Msg → List (Rat × Rat)
   | _, [] => []
